@@ -310,9 +310,17 @@ func UpdateCheckpoint(outCli client.Redis, localCheckpoint string, ids []string)
 			Version: config.Version,
 		}
 		if len(cpName) > 0 { // restore old checkpoint
-			cpKv, _, err = GetCheckpoint(outCli, cpName, ids)
+			var cpDb int
+			cpKv, cpDb, err = GetCheckpoint(outCli, cpName, ids)
 			if err != nil {
 				return err
+			}
+			// GetCheckpoint leaves the connection in the last database it visited :
+			// write the new checkpoint into the database that holds the old one
+			if cpDb >= 0 {
+				if err = redis.SelectDB(outCli, uint32(cpDb)); err != nil {
+					return err
+				}
 			}
 		}
 
